@@ -1070,12 +1070,12 @@ struct const_subarray : array_types<T, D, ElementPtr, Layout> {
 	using extent_range [[deprecated("here to fulfill MultiArray concept")]] = void;
 
  private:
-	constexpr auto elements_aux_() const {return elements_range(this->base_, this->layout());}
+	constexpr auto elements_aux_() const {return elements_range(this->base_, this->layout().zero_based());}
 
  public:
 	const_subarray(const_subarray&&) noexcept = default;  // lints(readability-redundant-access-specifiers)
 
-	constexpr auto       elements() const&                         { return const_elements_range(this->base(), this->layout()); }
+	constexpr auto       elements() const&                         { return const_elements_range(this->base(), this->layout().zero_based()); }
 	constexpr auto const_elements() const  -> const_elements_range { return elements_aux_(); }
 
 	constexpr auto hull() const -> std::pair<element_const_ptr, size_type> {
@@ -2950,10 +2950,10 @@ struct const_subarray<T, 1, ElementPtr, Layout>  // NOLINT(fuchsia-multiple-inhe
 	using const_elements_range = elements_range_t<element_const_ptr, layout_type>;
 
  private:
-	constexpr auto elements_aux_() const {return elements_range{this->base_, this->layout()};}
+	constexpr auto elements_aux_() const {return elements_range{this->base_, this->layout().zero_based()};}
 
  public:
-	constexpr auto  elements() const& -> const_elements_range {return const_elements_range{this->base(), this->layout()};}  // TODO(correaa) simplify
+	constexpr auto  elements() const& -> const_elements_range {return const_elements_range{this->base(), this->layout().zero_based()};}  // TODO(correaa) simplify
 
 	constexpr auto celements() const  -> const_elements_range {return elements_aux_();}
 
